@@ -10,6 +10,12 @@ import (
 
 var once sync.Once
 
+// Again re-registers unconditionally (after the overlay build's ResetAll emptied the registries).
+func Again() {
+	avrotime.RegisterCodecs()
+	avronull.RegisterCodecs()
+}
+
 func Init() {
 	once.Do(func() {
 		avrotime.RegisterCodecs()
